@@ -38,5 +38,12 @@ for d in sorted((ROOT / "seeded").iterdir()):
             hist = "first run: MISSED by " + ", ".join(first.get("verdicts", {})) + "; caught after the check was strengthened"
         elif weak and fc:
             hist = "first run: only a correspondence disagreement (no-failing-input-found); oracle strengthened"
+    reg = m.get("regression")
+    if reg:
+        if reg.get("neutralised_on_head"):
+            hist += (" — " if hist else "") + "final pass: no longer observable on HEAD (" + reg["neutralised_on_head"][:200] + ")"
+        elif "still_caught" in reg:
+            hist += (" — " if hist else "") + ("final pass on " + reg.get("repo_head", "HEAD") + ": still caught"
+                                               if reg["still_caught"] else "final pass on " + reg.get("repo_head", "HEAD") + ": NOT caught")
     print(f"| {m['name']} | {summ} | {m.get('demo_clean_exit')} / {m.get('demo_changed_exit')} | {suite} | "
           f"{', '.join(m.get('caught_by', [])) or 'MISSED'} | {'; '.join(how)}{(' — ' + hist) if hist else ''} |")
